@@ -413,9 +413,12 @@ def oracle_c11(res: dict[str, Any]) -> list[tuple[str, str]]:
             if st != "new":
                 out.append(("instance-initialized-twice", f"tick {t}: {name} #{ser} initialized in state {st}"))
             state[ser] = "init"
-            # requesting a command first cancels the older one
+            # requesting a command first cancels the older one: the older instance is finalized by the end of this
+            # tick (the order of the finalize callback within the tick is the code's business: `cancel()` comes first,
+            # the finalize may follow when the older request has its turn in the same loop)
             for other, ost in state.items():
-                if other != ser and ost in ("init", "run") and not live_conflict_reported:
+                if other != ser and ost in ("init", "run") and not live_conflict_reported and \
+                        fin_tick.get(other, 10 ** 9) > t:
                     oname = next(e[2] for e in log if e[3] == other)
                     if conflicts(name, oname):
                         live_conflict_reported = True
@@ -623,8 +626,10 @@ def oracle_c12(case: dict[str, Any], res: dict[str, Any]) -> list[tuple[str, str
                           x[2] not in ("completed", "cancelled", "failed")] if isinstance(rl, list) else [1]
                 if others:
                     continue
+                # (a Pause / Hold of the user that was accepted before may be what holds the method afterwards: several
+                #  requests of one internal command share one resident instance)
                 quiet_next = t < n_ticks and res["ticks"][t]["raised"] is None and \
-                    not any(q["op"] == ["user", kind] and q["tick"] in (t, t + 1) for q in res["requests"])
+                    not any(q["op"] == ["user", kind] and q["tick"] <= t + 1 for q in res["requests"])
                 if not r.get("has_cmd"):
                     # the item was cancelled before the command manager started the command (the tick after the
                     # node was visited): the Pause / Hold must not take effect at all
